@@ -23,10 +23,10 @@ OWNER = {"insert": "C04", "remove": "C05", "elevate": "C06", "reduce": "C06",
 # --------------------------------------------------------------------------
 # plan generation
 # --------------------------------------------------------------------------
-def gen_curve_spec(rng, mode, rational, maxp, maxint, profile):
+def gen_curve_spec(rng, mode, rational, maxp, maxint, profile, dyadic=False):
     p = rng.randint(0, maxp)
     nint = rng.randint(0, maxint)
-    if mode == "float":
+    if mode == "float" or dyadic:
         vals = sorted(set(Fraction(rng.randint(-192, 256), 64) for _ in range(nint + 2)))
     else:
         vals = sorted(set(Fraction(rng.randint(-3 * d, 4 * d), d) for d in [rng.choice([1, 1, 2, 3, 4, 6, 8, 12, 16, 24, 48])
@@ -53,7 +53,10 @@ def gen_curve_spec(rng, mode, rational, maxp, maxint, profile):
     return spec
 
 
-def _nodes(rng, nmax=3):
+DYADIC_TS = ["1/2", "1/4", "3/4", "5/8", "7/16"]
+
+
+def _nodes(rng, nmax=3, dyadic=False):
     out = []
     for _ in range(rng.randint(1, nmax)):
         r = rng.random()
@@ -62,7 +65,7 @@ def _nodes(rng, nmax=3):
         elif r < 0.38:
             out.append(["zero"])
         else:
-            out.append(["mid", rng.randrange(8), rng.choice(TS)])
+            out.append(["mid", rng.randrange(8), rng.choice(DYADIC_TS if dyadic else TS)])
     if rng.random() < 0.3:
         out.append(list(out[0]))
     return out
@@ -91,7 +94,12 @@ def gen_plan(prop, seed, tier):
            "fault_rate": rng.choice([0.0, 0.15, 0.3, 0.45]), "twin": prop == "C14" and rng.random() < 0.6}
     if profile == "sim-bounded":
         cfg["bound"] = rng.choice([50, 400, 5000, 10 ** 6])
-    cfg["init"] = gen_curve_spec(rng, mode, rational, maxp, rng.randint(0, 3), "frac" if profile == "frac" else "vec")
+    # 'shadow': every step is first performed on a float twin with the same (dyadic) knot values, so that any state
+    # the library keeps between calls (memo tables, caches keyed by value) has a float history when the exact
+    # curve arrives - the cross-representation history of C04-C06's "exactly for rational data" clauses
+    cfg["shadow"] = mode == "exact" and profile in ("frac", "vec") and rng.random() < 0.35
+    cfg["init"] = gen_curve_spec(rng, mode, rational, maxp, rng.randint(0, 3), "frac" if profile == "frac" else "vec",
+                                 dyadic=cfg["shadow"])
     nops = rng.randint(3, 14 if tier == "thorough" else 9)
     weights = {
         "C04": [("insert", 10), ("elevate", 2), ("remove", 2), ("reduce", 1), ("clean", 1)],
@@ -109,7 +117,7 @@ def gen_plan(prop, seed, tier):
         faulty = rng.random() < cfg["fault_rate"]
         tol = rng.choice(["default", "default", "default", "1e-3", "1e-12", "0", "none"])
         if k in ("insert", "insert+undo"):
-            op = {"op": "insert", "t": t, "nodes": _nodes(rng)}
+            op = {"op": "insert", "t": t, "nodes": _nodes(rng, 3, cfg["shadow"])}
             if faulty and k == "insert":
                 r = rng.random()
                 if r < 0.35:
@@ -346,6 +354,12 @@ class RefEngine:
         except Exception as e:  # noqa
             raise HarnessError("cannot build the initial curve of the plan: %r" % (e,))
         self.slots = [base, None]
+        self.shadow = None
+        if cfg.get("shadow"):
+            try:
+                self.shadow = self.build(cfg["init"], dict(cfg, mode="float", profile="fvec" if cfg["profile"] == "vec" else "frac"), self.seam)
+            except Exception:  # noqa
+                self.shadow = None
         self.last = [None, None]       # record of the last successful mutating step per slot (for undo)
         self.lossy = [False, False]    # the function was changed by an accepted lossy step (expectations dropped)
         self.cleaned = [False, False]  # the slot's last successful mutator was clean()
@@ -367,6 +381,8 @@ class RefEngine:
                 ctx.log(kind, "skip-empty")
                 continue
             judged = OWNER[kind] == prop
+            if self.shadow is not None and t == 0:
+                self.mirror_on_shadow(ctx, op, curve)
             if self.alpha(curve) is None:
                 ctx.count("slot_retired_inconsistent")
                 self.slots[t] = None
@@ -389,6 +405,43 @@ class RefEngine:
             p = M.kv_degree(st[0])
             ctx.state((p, tuple(m for _, m in M.kv_mults(st[0])), cfg["mode"], st[2] is not None, cfg["profile"]))
             ctx.log(kind, res, p, len(st[1]))
+
+    def mirror_on_shadow(self, ctx, op, curve):
+        """Perform the step on the float twin first (unjudged history).  The twin is dropped as soon as its knot
+        values stop matching the exact curve's."""
+        sh = self.shadow
+        kind = op["op"]
+        try:
+            if [float(k) for k in curve.knotvector] != [float(k) for k in sh.knotvector]:
+                self.shadow = None
+                return
+            if kind == "insert":
+                vals, tags = self.resolve_all(curve, op["nodes"], self.cfg, self.alpha(curve))
+                if "bad" in tags or not vals:
+                    return
+                sh.knot_insert([float(v) for v in vals])
+            elif kind == "elevate":
+                t = self.times_value(op["times"])
+                if isinstance(t, int) and t >= 1:
+                    sh.degree_increase(t)
+            elif kind == "reduce":
+                t = self.times_value(op["times"])
+                if isinstance(t, int) and t >= 1 and not op.get("undo"):
+                    sh.degree_decrease(t, None)
+                elif op.get("undo") and self.last[0] is not None and self.last[0]["kind"] == "elevate":
+                    sh.degree_decrease(self.last[0]["times"])
+            elif kind == "remove":
+                if op.get("undo") and self.last[0] is not None and self.last[0]["kind"] == "insert":
+                    sh.knot_remove([float(v) for v in self.last[0]["nodes"]])
+                else:
+                    self.shadow = None
+                    return
+            else:
+                self.shadow = None
+                return
+            ctx.count("shadow_steps")
+        except Exception:  # noqa
+            self.shadow = None
 
     def op_twin(self, ctx):
         """Slot 1 := a differently refined representation of the same function (history for C14)."""
@@ -478,7 +531,7 @@ class RefEngine:
                 ctx.oracle("valid-request-succeeds")
                 ctx.fail("valid-insert-refused", self.klass(s0) + "-" + cfg["profile"],
                          "knot_insert(%s) raised %s: %s" % ([M.enc(M.Fr(v)) for v in vals], type(exc).__name__, exc))
-            return "raise:" + type(exc).__name__
+            return "raise:env-fault" if fired else "raise:" + type(exc).__name__
         if must is not None:
             if judged:
                 ctx.oracle("rejects-invalid")
@@ -590,7 +643,7 @@ class RefEngine:
                 if self.numeric and cls == "lossy" and tolname == "none":
                     ctx.oracle("none-always-succeeds")
                     ctx.fail("none-refused", klass, "knot_remove(..., tolerance=None) raised %s: %s" % (type(exc).__name__, exc))
-            return "raise:" + type(exc).__name__
+            return "raise:env-fault" if fired else "raise:" + type(exc).__name__
         if cls in ("bad", "badtol", "absent", "illformed"):
             if judged:
                 ctx.oracle("rejects-invalid")
@@ -717,13 +770,13 @@ class RefEngine:
                 return "accepted-invalid"
             if judged and not isinstance(exc, ValueError):
                 ctx.fail("wrong-exception", "elevate", "degree_increase(%r) raised %s instead of ValueError" % (times, type(exc).__name__))
-            return "raise:" + type(exc).__name__
+            return "raise:env-fault" if fired else "raise:" + type(exc).__name__
         if exc is not None:
             if judged and not fired:
                 ctx.oracle("valid-request-succeeds")
                 ctx.fail("valid-elevation-refused", klass + "-" + self.cfg["profile"],
                          "degree_increase(%d) raised %s: %s" % (times, type(exc).__name__, exc))
-            return "raise:" + type(exc).__name__
+            return "raise:env-fault" if fired else "raise:" + type(exc).__name__
         ctx.transitions += 1
         s1 = self.alpha(curve)
         if s1 is None:
@@ -811,7 +864,7 @@ class RefEngine:
                 if cls == "lossy" and tolname == "none":
                     ctx.oracle("none-always-succeeds")
                     ctx.fail("none-refused", klass, "degree_decrease(%d, None) raised %s: %s" % (times, type(exc).__name__, exc))
-            return "raise:" + type(exc).__name__
+            return "raise:env-fault" if fired else "raise:" + type(exc).__name__
         if cls in ("bad", "badtol", "inexpressible"):
             if judged:
                 ctx.fail("invalid-accepted", "reduce-" + cls, "degree_decrease(%r, %r) was accepted although it must be refused" % (times, tolname))
